@@ -83,16 +83,17 @@ CHECKS = {
         tech="Coq proof (generic offset theorem by induction on layouts; table equality by computation) + translator + sentinel correspondence",
     ),
     "C07": dict(
-        text="PARTIAL. Coq theorems: by INDUCTION OVER THE EDIT SEQUENCE every section the operations do not address stays "
+        text="Coq theorems (partial only in that the split-TRIG finding is excluded by a premise): by INDUCTION OVER THE EDIT SEQUENCE every section the operations do not address stays "
              "where and as it was; string numbers are never renumbered (the lookup of a grown table is the old lookup "
              "followed by new texts); hence for any edit history the sound table / unit settings the unedited save emits are "
              "emitted byte for byte; the rebuilt location list is the old one followed by the newly placed locations and every "
              "occupied index still resolves to its location; added triggers are "
              "appended (existing ones keep content and position), every string id keeps its text through the save path's "
              "rebuild, slots handed to new locations / unit-property sets were empty, sections without a rich model keep "
-             "place and bytes; and a refutation on the model of the recorded finding (split TRIG sections). Not proved as one "
-             "statement: byte identity of pre-existing TRIG records (needs the same argument for location / switch / "
-             "unit-property numbers). Random edit "
+             "place and bytes; EVERY PRE-EXISTING TRIGGER IS UNCHANGED BYTE FOR BYTE (C07_preexisting_triggers_are_unchanged_"
+             "byte_for_byte: the numbers of strings, locations, unit-property sets and switches that sit in the loaded map's "
+             "tables do not depend on what else a save has to place), with a kernel-computed example meeting every premise; and "
+             "a refutation on the model of the recorded finding (split TRIG sections). Random edit "
              "sequences are run on the implementation and compared slot by slot with the save of the unedited map by an "
              "independent reader; the pipeline model reproduces every saved map byte for byte.",
         ref="DESIGN.md 5.12",
